@@ -20,11 +20,8 @@ import PanqecVerif.Proofs.Lat2DRank
 open Panqec Panqec.Lat3Db
 namespace Panqec.RotatedPlanar3DCode
 
-/-- the selected generators: vertices, horizontal faces with `z = 1`, vertical faces -/
-def selStabs (Lx Ly Lz : Nat) : List Coord :=
-  grid3 (pyRange2 2 (2*Lx)) (pyRange2 0 (2*Ly+1)) (pyRange2 1 (2*Lz)) (fun x y _ => (x + y) % 4 == 2) ++
-  grid3 (pyRange2 0 (2*Lx+1)) (pyRange2 2 (2*Ly)) (pyRange2 1 2) (fun x y _ => (x + y) % 4 == 0) ++
-  grid3 (pyRange2 1 (2*Lx+1)) (pyRange2 1 (2*Ly)) (pyRange2 2 (2*Lz)) (fun _ _ _ => true)
+/-! `selStabs` (vertices, horizontal faces with `z = 1`, vertical faces): defined in
+    `Model/Lattices/RotatedPlanar3DCode.lean` (linked into the driver, op `rankfamily`) -/
 
 /-- horizontal face of the bottom layer -/
 def SH1 (Lx Ly : Nat) (x y z : Int) : Prop :=
